@@ -371,6 +371,15 @@ def run_task(task, acc):
             for clause, detail in bad:
                 acc.violation(clause, case, detail, sig=clause + ':ctor:' + src)
             acc.nontriv(hash((task['i'], src, si)))
+    # answers that are kept (and changed) by the caller
+    case = {'kind': 'held', 'hist': h}
+    acc.current = case
+    acc.transitions += 1
+    bad = check_held(h)
+    if not bad:
+        acc.validated += 1
+    for clause, detail in bad:
+        acc.violation(clause, case, detail, sig=clause + ':held')
     # pieces joined with values that continue their settings
     for k in range(1, len(v)):
         for side in ('tail', 'head'):
@@ -412,6 +421,40 @@ def run_task(task, acc):
                         nxt.append((hh, path + [[name, args, kwargs]]))
         level = nxt
     acc.sample({'kind': 'call', 'hist': h, 'path': [], 'call': ['center', [5, '*'], {}]})
+
+
+def check_held(h):
+    """The lists ansi_settings_at() hands out belong to the caller: kept while other indices are asked, and cleared by the
+    caller, they neither change under the caller's hands nor change what the AnsiStr answers afterwards."""
+    bad = []
+    a = build(h)
+    s = AnsiStr(a)
+    n = len(a)
+    idx = list(range(-1, n + 1))
+    try:
+        for order in (idx, idx[::-1], idx[::2] + idx[1::2]):
+            held_a = {i: a.ansi_settings_at(i) for i in order}
+            held_s = {i: s.ansi_settings_at(i) for i in order}
+            for i in order:
+                if [str(x) for x in held_s[i]] != [str(x) for x in held_a[i]]:
+                    bad.append(('twin-held-answers', 'ansi_settings_at asked in the order %r, answers kept: AnsiStr gave %r for index %d, '
+                                'AnsiString %r' % (order, [str(x) for x in held_s[i]], i, [str(x) for x in held_a[i]])))
+                    return bad
+            for i in order:
+                held_s[i].clear()
+                held_s[i].append(AnsiSetting('95'))
+            for i in order:
+                got = ([str(x) for x in s.ansi_settings_at(i)], s.settings_at(i))
+                want = ([str(x) for x in a.ansi_settings_at(i)], a.settings_at(i))
+                if got != want:
+                    bad.append(('twin-held-answers', 'after the caller changed the lists ansi_settings_at() had returned, the AnsiStr '
+                                'answers %r at index %d, the AnsiString %r' % (got, i, want)))
+                    return bad
+        if str.__str__(s) != str(a) or str(s) != str(a):
+            bad.append(('twin-held-answers', 'rendering differs after the caller changed returned lists'))
+    except Exception as e:  # noqa
+        bad.append(('twin-held-answers', 'raised %s: %s' % (type(e).__name__, e)))
+    return bad
 
 
 def check_piece_cat(h, k, side):
@@ -490,6 +533,8 @@ def replay(case):
         return check_ctor(case['src'], case['hist'], case['si'], 0)
     if case['kind'] == 'piececat':
         return check_piece_cat(case['hist'], case['k'], case['side'])
+    if case['kind'] == 'held':
+        return check_held(case['hist'])
     name, args, kwargs = case['call']
     return check_path_call(case['hist'], case['path'], name, args, kwargs)[0]
 
